@@ -5,8 +5,9 @@
 use super::{parse_sim, HGuard, SimCtx};
 use dropshot::{
     endpoint, ApiDescription, Body, HttpError, MultipartBody, Path, Query,
-    RequestContext, StreamingBody, TypedBody, UntypedBody,
+    RawRequest, RequestContext, StreamingBody, TypedBody, UntypedBody,
 };
+use http_body_util::BodyExt;
 use futures::StreamExt;
 use http::Response;
 use schemars::JsonSchema;
@@ -229,6 +230,36 @@ async fn echo_stream(
     r
 }
 
+/// The raw hyper request handed to the handler as is: method, URI, headers
+/// and the whole body must be this request's.
+#[endpoint { method = PUT, path = "/rawreq/{s}" }]
+async fn echo_rawreq(
+    rqctx: RequestContext<SimCtx>,
+    path: Path<SPath>,
+    raw: RawRequest,
+) -> Result<Response<Body>, HttpError> {
+    let (nonce, g) = delay(&rqctx).await;
+    let req = raw.into_inner();
+    let (parts, body) = req.into_parts();
+    let bytes = match body.collect().await {
+        Ok(c) => c.to_bytes(),
+        Err(e) => {
+            g.finish();
+            return Err(HttpError::for_bad_request(None, format!("raw body: {e}")));
+        }
+    };
+    let args = json!({
+        "path": {"s": path.into_inner().s},
+        "body": hex(&bytes),
+        "raw_method": parts.method.as_str(),
+        "raw_uri": parts.uri.to_string(),
+        "raw_nonce": parts.headers.get("x-sim").and_then(|v| v.to_str().ok()).and_then(|v| v.split(';').next().map(|x| x.to_string())),
+    });
+    let r = respond(nonce, args, ctx_json(&rqctx));
+    g.finish();
+    r
+}
+
 #[endpoint { method = POST, path = "/mp", request_body_max_bytes = 1048576 }]
 async fn echo_mp(
     rqctx: RequestContext<SimCtx>,
@@ -316,6 +347,7 @@ pub fn register(api: &mut ApiDescription<SimCtx>, versioned: bool) {
     api.register(echo_form).unwrap();
     api.register(echo_raw).unwrap();
     api.register(echo_stream).unwrap();
+    api.register(echo_rawreq).unwrap();
     api.register(echo_mp).unwrap();
     api.register(echo_wild).unwrap();
     api.register(echo_narrow).unwrap();
